@@ -819,6 +819,12 @@ func (pr *Prover) cursorFacts() []Lin {
 				}
 			}
 		}
+		if call, ok := base.(*ssa.Call); ok && !have {
+			// a reader made by a constructor of the library: its data is the constructor's argument
+			if d, isNew := pr.cur.newReader(call); isNew && d != nil {
+				dlen, have = pr.lenOf(d), true
+			}
+		}
 		if !have {
 			k := fmt.Sprintf("len(*(&(%s).%d))", pr.key(base), pr.cur.D)
 			pr.atomRange(k, 0, math.MaxInt64)
@@ -922,6 +928,22 @@ func (pr *Prover) linRaw(v ssa.Value) Lin {
 				a := pr.opaque(v)
 				pr.atomRange(pr.key(v), 0, float64(k))
 				return a
+			}
+		case token.OR, token.XOR:
+			// x | y of two non-negative values stays below the next power of two above both
+			llo, lhi := pr.rangeOfLin(pr.lin(x.X))
+			rlo, rhi := pr.rangeOfLin(pr.lin(x.Y))
+			if llo >= 0 && rlo >= 0 && lhi < 1e15 && rhi < 1e15 {
+				m := math.Max(lhi, rhi)
+				bound := float64(1)
+				for bound <= m {
+					bound *= 2
+				}
+				if _, thi, ok := pr.intTypeRange(x.Type()); ok && bound-1 <= thi {
+					a := pr.opaque(v)
+					pr.atomRange(pr.key(v), 0, bound-1)
+					return a
+				}
 			}
 		case token.REM:
 			if k, ok := constInt(x.Y); ok && k > 0 {
@@ -1820,7 +1842,7 @@ func fillBufIndex(fn *ssa.Function) int {
 		if b, ok := ps.At(k + 1).Type().Underlying().(*types.Basic); ok && b.Kind() == types.Int {
 			return k
 		}
-		return -1
+		// a byte-slice value to emit in front of the buffer (`fillPropOf(v bindata, data []byte, i int, …)`): keep looking
 	}
 	return -1
 }
@@ -1929,10 +1951,36 @@ func (p *Prog) freeCellNonNil(fv *ssa.FreeVar) bool {
 		}
 	}
 	key := fmt.Sprintf("cellnn:%s:%d:%d", fn.String(), fn.Pos(), k)
-	if v, ok := p.cache[key]; ok {
-		return v.(bool)
+	// parameters of the enclosing function the answer relies on: registered as non-nil needs of that function (checked
+	// at its call sites, safety.go) on every use of the answer
+	type cellRes struct {
+		ok    bool
+		needs []int
 	}
-	p.cache[key] = false
+	register := func(r cellRes) bool {
+		if !r.ok {
+			return false
+		}
+		if len(r.needs) == 0 {
+			return true
+		}
+		needs := p.paramNeeds()
+		if needs == nil {
+			return false
+		}
+		for _, i := range r.needs {
+			if needs[par] == nil {
+				needs[par] = map[int]bool{}
+			}
+			needs[par][i] = true
+		}
+		return true
+	}
+	if v, ok := p.cache[key]; ok {
+		return register(v.(cellRes))
+	}
+	p.cache[key] = cellRes{}
+	var needIdx []int
 	res := false
 	var ppr *Prover
 	found := false
@@ -1965,6 +2013,14 @@ func (p *Prog) freeCellNonNil(fv *ssa.FreeVar) bool {
 						ppr.assumeContracts()
 					}
 					if !ppr.NonNil(x.Val, x.Block(), 0) {
+						// the enclosing function's own pointer parameter, captured as it is: non-nil when every call
+						// site of that function passes a non-nil argument
+						if prm, isPrm := x.Val.(*ssa.Parameter); isPrm && closedCallSites(par) && x.Block() == par.Blocks[0] {
+							if _, isPtr := prm.Type().Underlying().(*types.Pointer); isPtr {
+								needIdx = append(needIdx, paramIndex(par, prm))
+								continue
+							}
+						}
 						okAll = false
 					}
 				case *ssa.UnOp, *ssa.DebugRef:
@@ -1991,8 +2047,8 @@ func (p *Prog) freeCellNonNil(fv *ssa.FreeVar) bool {
 		}
 	}
 	res = found && okAll
-	p.cache[key] = res
-	return res
+	p.cache[key] = cellRes{res, needIdx}
+	return register(cellRes{res, needIdx})
 }
 
 // strongWhenNonNil: every callee that may have produced interface value v
